@@ -351,6 +351,48 @@ impl<'a> std::io::Read for Drip<'a> {
     }
 }
 
+/// like `Drip`, and every other call reports `ErrorKind::Interrupted` (a signal during a blocking read:
+/// not an error, the call has to be repeated — `read_exact` does)
+struct Intr<'a> {
+    data: &'a [u8],
+    pos: usize,
+    armed: bool,
+}
+
+impl<'a> std::io::Read for Intr<'a> {
+    fn read(&mut self, buf: &mut [u8]) -> std::io::Result<usize> {
+        if buf.is_empty() || self.pos >= self.data.len() {
+            return Ok(0);
+        }
+        self.armed = !self.armed;
+        if self.armed {
+            return Err(std::io::Error::from(std::io::ErrorKind::Interrupted));
+        }
+        buf[0] = self.data[self.pos];
+        self.pos += 1;
+        Ok(1)
+    }
+}
+
+/// a `Write` sink that takes one octet per call (a socket, a pipe): `write_all` copes, `write` does not
+#[derive(Default)]
+struct DripSink {
+    data: Vec<u8>,
+}
+
+impl std::io::Write for DripSink {
+    fn write(&mut self, buf: &[u8]) -> std::io::Result<usize> {
+        if buf.is_empty() {
+            return Ok(0);
+        }
+        self.data.push(buf[0]);
+        Ok(1)
+    }
+    fn flush(&mut self) -> std::io::Result<()> {
+        Ok(())
+    }
+}
+
 /// `on_both!(bytes, |src| <read from src>, |result, consumed| <answer>)`
 macro_rules! on_both {
     ($bytes:expr, |$src:ident| $body:expr, $fmt:expr) => {{
@@ -371,10 +413,40 @@ macro_rules! on_both {
             };
             ($fmt)(r, d.pos)
         };
-        if a == b {
+        let c = {
+            let mut d = Intr { data: bytes, pos: 0, armed: false };
+            let r = {
+                let $src = &mut d;
+                $body
+            };
+            ($fmt)(r, d.pos)
+        };
+        if a == b && a == c {
             a
         } else {
-            format!("chunked-differs [{}] [{}]", a, b)
+            format!("chunked-differs [{}] [{}] [{}]", a, b, c)
+        }
+    }};
+}
+
+/// `written_both!(|w| <write to w>)`: the octets written to a `Vec` — `Err` text when a sink that takes
+/// one octet per call receives something else
+macro_rules! written_both {
+    (|$w:ident| $body:expr) => {{
+        let mut v: Vec<u8> = Vec::new();
+        {
+            let $w = &mut v;
+            $body.expect("write to Vec");
+        }
+        let mut d = DripSink::default();
+        let r = {
+            let $w = &mut d;
+            $body
+        };
+        if r.is_ok() && d.data == v {
+            Ok(v)
+        } else {
+            Err(format!("chunked-differs written [{}] [{}]", hex(&v), hex(&d.data)))
         }
     }};
 }
@@ -492,6 +564,10 @@ fn rt_number<T: Number + Display, C: numbers::Constraint<T>>(v: T, post: &[u8]) 
     let mut w = BasicWriter::from(Vec::new());
     Integer::<T, C>::write_value(&mut w, &v).expect("write to Vec");
     let written = w.into_inner();
+    let mut wd = BasicWriter::from(DripSink::default());
+    if Integer::<T, C>::write_value(&mut wd, &v).is_err() || wd.into_inner().data != written {
+        return format!("chunked-differs written [{}]", hex(&written));
+    }
     let all = with_post(&written, post);
     on_both!(
         &all[..],
@@ -518,6 +594,10 @@ fn rt_boolean<C: boolean::Constraint>(v: bool, post: &[u8]) -> String {
     let mut w = BasicWriter::from(Vec::new());
     Boolean::<C>::write_value(&mut w, &v).expect("write to Vec");
     let written = w.into_inner();
+    let mut wd = BasicWriter::from(DripSink::default());
+    if Boolean::<C>::write_value(&mut wd, &v).is_err() || wd.into_inner().data != written {
+        return format!("chunked-differs written [{}]", hex(&written));
+    }
     let all = with_post(&written, post);
     on_both!(
         &all[..],
@@ -545,6 +625,10 @@ fn rt_enum<E: enumerated::Constraint>(index: u64, post: &[u8]) -> Option<String>
     let mut w = BasicWriter::from(Vec::new());
     Enumerated::<E>::write_value(&mut w, &value).expect("write to Vec");
     let written = w.into_inner();
+    let mut wd = BasicWriter::from(DripSink::default());
+    if Enumerated::<E>::write_value(&mut wd, &value).is_err() || wd.into_inner().data != written {
+        return Some(format!("chunked-differs written [{}]", hex(&written)));
+    }
     let all = with_post(&written, post);
     Some(on_both!(
         &all[..],
@@ -573,8 +657,10 @@ pub fn handle(args: &[&str]) -> Option<String> {
         ["len", n, post] => {
             let n: u64 = n.parse().ok()?;
             let post = unhex(post)?;
-            let mut written = Vec::new();
-            written.write_length(n).expect("write to Vec");
+            let written = match written_both!(|w| w.write_length(n)) {
+                Ok(v) => v,
+                Err(e) => return Some(e),
+            };
             let all = with_post(&written, &post);
             Some(on_both!(&all[..], |src| src.read_length(), |r, n| rt_answer(&written, r, n)))
         }
@@ -586,8 +672,10 @@ pub fn handle(args: &[&str]) -> Option<String> {
         ["id", k, n, post] => {
             let tag = parse_tag(k, n)?;
             let post = unhex(post)?;
-            let mut written = Vec::new();
-            written.write_identifier(tag).expect("write to Vec");
+            let written = match written_both!(|w| w.write_identifier(tag)) {
+                Ok(v) => v,
+                Err(e) => return Some(e),
+            };
             let all = with_post(&written, &post);
             Some(on_both!(&all[..], |src| src.read_identifier(), |r: Result<Tag, Error>, n| rt_answer(&written, r.map(class_str), n)))
         }
@@ -599,8 +687,10 @@ pub fn handle(args: &[&str]) -> Option<String> {
         ["bool", v, post] => {
             let v = pbool(v)?;
             let post = unhex(post)?;
-            let mut written = Vec::new();
-            BasicWrite::write_boolean(&mut written, v).expect("write to Vec");
+            let written = match written_both!(|w| BasicWrite::write_boolean(w, v)) {
+                Ok(v) => v,
+                Err(e) => return Some(e),
+            };
             let all = with_post(&written, &post);
             Some(on_both!(&all[..], |src| BasicRead::read_boolean(src), |r: Result<bool, Error>, n| rt_answer(&written, r.map(b01), n)))
         }
@@ -612,16 +702,20 @@ pub fn handle(args: &[&str]) -> Option<String> {
         ["i64", v, post] => {
             let v: i64 = v.parse().ok()?;
             let post = unhex(post)?;
-            let mut written = Vec::new();
-            written.write_integer_i64(v).expect("write to Vec");
+            let written = match written_both!(|w| w.write_integer_i64(v)) {
+                Ok(v) => v,
+                Err(e) => return Some(e),
+            };
             let all = with_post(&written, &post);
             Some(on_both!(&all[..], |src| src.read_integer_i64(written.len() as u32), |r, n| rt_answer(&written, r, n)))
         }
         ["u64", v, post] => {
             let v: u64 = v.parse().ok()?;
             let post = unhex(post)?;
-            let mut written = Vec::new();
-            written.write_integer_u64(v).expect("write to Vec");
+            let written = match written_both!(|w| w.write_integer_u64(v)) {
+                Ok(v) => v,
+                Err(e) => return Some(e),
+            };
             let all = with_post(&written, &post);
             Some(on_both!(&all[..], |src| src.read_integer_u64(written.len() as u32), |r, n| rt_answer(&written, r, n)))
         }
